@@ -270,6 +270,101 @@ def check_trace(ctx, pool, path, tag, every_prefix, coq_cuts):
     ctx.extra["%s_opcodes" % tag] = len(toks)
 
 
+# ---------------------------------------------------------------- a run whose writes are cut short (disk full)
+_CHILD = r"""
+import builtins, errno, os, sys
+in_file, out_file, limit, seed, chains = sys.argv[1], sys.argv[2], int(sys.argv[3]), int(sys.argv[4]), int(sys.argv[5])
+out_dir = os.path.dirname(os.path.abspath(out_file))
+_open = builtins.open
+class Limited:
+    # a file object on the output directory that runs out of space after `limit` bytes
+    def __init__(self, f):
+        self._f, self._n = f, 0
+    def write(self, b):
+        room = limit - self._n
+        if len(b) > room:
+            if room > 0:
+                self._f.write(bytes(b[:room])); self._n += room
+            self._f.flush()
+            raise OSError(errno.ENOSPC, "No space left on device")
+        self._n += len(b)
+        return self._f.write(b)
+    def __getattr__(self, name):
+        return getattr(self._f, name)
+    def __enter__(self):
+        return self
+    def __exit__(self, *a):
+        return self._f.__exit__(*a)
+def limited_open(file, mode="r", *a, **k):
+    f = _open(file, mode, *a, **k)
+    try:
+        inside = isinstance(file, (str, bytes, os.PathLike)) and os.path.dirname(os.path.abspath(os.fspath(file))) == out_dir
+    except Exception:
+        inside = False
+    if inside and any(c in mode for c in "wax+") and "b" in mode:
+        return Limited(f)
+    return f
+builtins.open = limited_open
+import gzip, io
+gzip.builtins = builtins
+from phyclone.run import run
+run(in_file, out_file, burnin=1, num_iters=4, num_particles=4, seed=seed, num_chains=chains, print_freq=1000, grid_size=11, density="binomial")
+"""
+
+
+def interrupted_runs(ctx, d):
+    """A real multi-chain `run()` whose output directory runs out of space after k bytes per file (k from a few bytes to one
+    byte short of the complete trace): afterwards the trace path holds nothing, a file the summary commands reject, or a
+    trace with ALL chains and entries of the run - never a readable trace of part of the run."""
+    import subprocess
+    import sys
+
+    in_file = runs.write_input(os.path.join(d, "irun.tsv"), runs.make_rows(ctx.rng, 3, 2, depth=(10, 30)))
+    seed = ctx.rng.randrange(1, 10**6)
+    chains = 3
+    env = runs.base_env("0")
+
+    def child(out_dir, limit):
+        os.makedirs(out_dir, exist_ok=True)
+        out = os.path.join(out_dir, "trace.pkl.gz")
+        p = subprocess.run([sys.executable, "-c", _CHILD, in_file, out, str(limit), str(seed), str(chains)], env=env, capture_output=True, text=True, timeout=900)
+        return out, p.returncode, (p.stdout + p.stderr)[-400:]
+
+    full_out, rc, tail = child(os.path.join(d, "irun_full"), 10**9)
+    if rc != 0 or not os.path.exists(full_out):
+        ctx.broken_tie("interrupted-run scenario: the uninterrupted reference run failed (rc %s): %s" % (rc, tail))
+        return
+    full = runs.read_trace(full_out)
+    L = os.path.getsize(full_out)
+    want = {int(c): len(full[c]["trace"]) for c in full}
+    if sorted(want) != list(range(chains)):
+        ctx.broken_tie("interrupted-run scenario: the reference trace holds chains %r" % sorted(want))
+        return
+    limits = sorted({7, L // 3, L // 2, (3 * L) // 4, L - 40, L - 9, L - 1})
+    from concurrent.futures import ThreadPoolExecutor
+
+    with ThreadPoolExecutor(max_workers=4) as ex:
+        outs = list(ex.map(lambda k: (k,) + child(os.path.join(d, "irun_%d" % k), k), limits))
+    for k, out, rc, tail in outs:
+        ctx.case(key=("interrupted-run", k), nontrivial=True, sample={"space_per_file": k, "complete_trace_bytes": L, "exit": rc, "trace_exists": os.path.exists(out)})
+        ctx.count("interrupted_run:%s" % ("no-file" if not os.path.exists(out) else "file-left"))
+        if not os.path.exists(out):
+            continue
+        dd = runs.tmpdir("C20_irun_read_%d_%d" % (os.getpid(), k))
+        res = _reader_outcomes(out, dd)
+        if all(o.startswith("E:") for o in res):
+            continue
+        try:
+            got = runs.read_trace(out)
+            have = {int(c): len(got[c]["trace"]) for c in got}
+        except Exception as e:  # noqa: BLE001
+            have = "unreadable (%s)" % type(e).__name__
+        if have != want:
+            ctx.fail("C20:run:interrupted-write:partial-trace-readable",
+                     "a %d-chain run whose output directory ran out of space after %d bytes per file (the complete trace has %d) left a trace file that the summary commands read without error (%s) but that holds %s instead of all chains with %s entries" % (chains, k, L, [o[:12] for o in res], have, want),
+                     {"space_per_file": k, "complete_trace_bytes": L, "chains": chains, "seed": seed, "outcomes": list(res), "trace_holds": have if isinstance(have, str) else {str(c): n for c, n in have.items()}, "input": open(in_file).read()})
+
+
 def run(ctx):
     coq.check_property_file(ctx)
     ctx.rule = (
@@ -300,6 +395,7 @@ def run(ctx):
     with ProcessPoolExecutor(max_workers=WORKERS) as pool:
         for tag, path, every, cuts in traces:
             check_trace(ctx, pool, path, tag, every, cuts)
+    interrupted_runs(ctx, d)
     shutil.rmtree(d, ignore_errors=True)
     ctx.assumptions += [
         "CPython's unpickler, gzip.GzipFile and zlib behave as Model/Framing.v states (validated on every explored prefix, not proved)",
